@@ -12,6 +12,13 @@ import (
 
 var sfoMagic = [...]byte{0, 'P', 'S', 'F'}
 
+const (
+	// key offsets are 16-bit, so there can't be more keys
+	sfoMaxEntries = 1 << 16
+	// the longest values of known fields are about 2KiB
+	sfoMaxValueLen = 1 << 20
+)
+
 type sfoHeader struct {
 	Magic             [4]byte
 	Version           [4]byte
@@ -39,6 +46,12 @@ func sfoField(f afero.File, field string) (string, error) {
 
 	if hdr.Magic != sfoMagic {
 		return "", fmt.Errorf("bad sfo magic: %s", hdr.Magic)
+	}
+
+	// index table lies between header and key table, do not walk through more entries than fit there
+	// (count is just a number in a file)
+	if maxEntries := (int64(hdr.KeyTableStart) - int64(binary.Size(hdr))) / int64(binary.Size(sfoIndexTableEntry{})); int64(hdr.TableEntriesCount) > min(max(maxEntries, 0), sfoMaxEntries) {
+		return "", fmt.Errorf("bad sfo entries count: %d", hdr.TableEntriesCount)
 	}
 
 	var (
@@ -87,6 +100,11 @@ func sfoField(f afero.File, field string) (string, error) {
 	_, err := f.Seek(off, io.SeekStart)
 	if err != nil {
 		return "", fmt.Errorf("failed to seek to key at %d: %w", off, err)
+	}
+
+	// value is read to memory, so it must have a sane size whatever the file says
+	if idxEntry.DataLen > sfoMaxValueLen {
+		return "", fmt.Errorf("value is too long: %d bytes", idxEntry.DataLen)
 	}
 
 	var ret strings.Builder
